@@ -30,6 +30,32 @@ func notClaimed() [][2]string {
 func props() []prop {
 	return []prop{
 		{
+			ID: "C05", Level: "exploration",
+			LevelText:   "A per-actor trace automaton (OnLaunch first in every incarnation, no second OnLaunch, OnKill before the own OnKilled, nothing after the own OnKilled unless a restart follows, OnLaunch sent by the parent to the restarted actor itself, behaviour stack reset, fresh instance with a provider, OnLaunch count == spawns + restarts, silent instance when ActorOf failed) runs over the complete recorded traces of restart-centred PRNG histories, the general histories and both enumerated supervision matrices, all executed on the real system in synctest bubbles.",
+			LevelNote:   "Trusted: recording behaviours (every message an actor's behaviour sees is logged with instance id and behaviour tag), synctest quiescence. The register->OnLaunch window of ActorOf (a message sent through a parsed ref overtaking OnLaunch) needs a preemption inside ActorOf and is only reachable by the inject tier, see DESIGN §3 D23.",
+			Technique:   "online-recorded per-actor traces checked offline by a trace automaton",
+			DesignRef:   "DESIGN.md §4 C05",
+			Assumptions: with("hooks (Prelaunch/PreRestart/Restarted) are not messages"),
+			Units: []unit{
+				{Check: "lifecycle", Pkg: "internal/actor", Shards: [2]int{8, 16}, Timeout: [2]time.Duration{6 * min, 40 * min}, CrashKey: "c05-crash", OnlyKinds: []string{"c05-", "harness-"}},
+				{Check: "histories", Pkg: "internal/actor", Shards: [2]int{8, 16}, Timeout: [2]time.Duration{6 * min, 40 * min}, OnlyKinds: []string{"c05-"}},
+				{Check: "supmatrix", Pkg: "internal/actor", Shards: [2]int{8, 16}, Timeout: [2]time.Duration{5 * min, 30 * min}, OnlyKinds: []string{"c05-"}},
+				{Check: "unstuck", Pkg: "internal/actor", Shards: [2]int{8, 16}, Timeout: [2]time.Duration{5 * min, 30 * min}, OnlyKinds: []string{"c05-"}},
+			},
+		},
+		{
+			ID: "C06", Level: "exploration",
+			LevelText:   "Kill-centred PRNG histories on trees of up to 20 actors (any node, poison/immediate, repeated and concurrent kills at one virtual instant, kills racing spawns in the victim, watchers registered before/at/after the kill, every actor holding subscriptions and Loop jobs) run on the real system in synctest bubbles; offline monitors over the single observer's event order and the per-actor traces require: descendants reported terminated before ancestors, exactly one ActorKilledEvent per termination, exactly one OnKilled at the parent and at each registered watcher, none elsewhere; at quiescence terminated paths are gone from the registry, FindActor, both event-stream tables, their jobs stay silent for 3 intervals of virtual time, and the name can be spawned again.",
+			LevelNote:   "Trusted: the observer's mailbox order equals Publish order for events published by one actor; stamps of unrelated observers are never compared. Virtual time makes 'no later firing' exact.",
+			Technique:   "offline ordering / exactly-once checkers over recorded event logs + hooked-state release checks at quiescence",
+			DesignRef:   "DESIGN.md §4 C06",
+			Assumptions: with("ActorKilledEvent order is taken at one observer actor"),
+			Units: []unit{
+				{Check: "killtree", Pkg: "internal/actor", Shards: [2]int{8, 16}, Timeout: [2]time.Duration{6 * min, 40 * min}, CrashKey: "c06-crash", OnlyKinds: []string{"c06-", "tree-", "harness-"}},
+				{Check: "histories", Pkg: "internal/actor", Shards: [2]int{8, 16}, Timeout: [2]time.Duration{6 * min, 40 * min}, OnlyKinds: []string{"c06-", "tree-"}},
+			},
+		},
+		{
 			ID: "C03", Level: "exploration",
 			LevelText:   "Conservation ledger over recorded runs of the real system in a synctest bubble: every user message id sent through System.Tell/ActorContext.Tell is matched at the bubble's exact quiescence against {processed by the target's behaviour, sitting in a stash, published once as DeathLetterEvent}; PRNG histories vary target state (running, killing, stopped while paused, restarting, terminated, never existed) and reference provenance (ActorOf value, Clone, ParseRef, FindActor) with sends racing transitions at one virtual instant; the enumerated supervision matrices add the stopped-while-paused and restart cases systematically; a post-Stop phase checks that late sends cause no further work.",
 			LevelNote:   "Trusted: synctest quiescence as the 'never delivered' oracle; the zombie exception is applied as documented. Remote targets belong to C14, system messages are not in the ledger.",
@@ -51,6 +77,7 @@ func props() []prop {
 			Units: []unit{
 				{Check: "unstuck", Pkg: "internal/actor", Shards: [2]int{8, 16}, Timeout: [2]time.Duration{5 * min, 30 * min}, CrashKey: "c09-crash", HangKind: "c09-hang", OnlyKinds: []string{"c09-", "harness-"}},
 				{Check: "supmatrix", Pkg: "internal/actor", Shards: [2]int{8, 16}, Timeout: [2]time.Duration{5 * min, 30 * min}, CrashKey: "c09-crash", HangKind: "c09-hang", OnlyKinds: []string{"c09-"}},
+				{Check: "histories", Pkg: "internal/actor", Shards: [2]int{8, 16}, Timeout: [2]time.Duration{6 * min, 40 * min}, CrashKey: "c09-crash", HangKind: "c09-hang", OnlyKinds: []string{"c09-"}},
 			},
 		},
 		{
@@ -73,6 +100,7 @@ func props() []prop {
 			Assumptions: with("interleavings are explored at statement granularity under sequential consistency in the serialized tier"),
 			Units: []unit{
 				{Check: "mailboxsched", Pkg: "internal/mailbox", Instr: []string{"internal/mailbox/unbounded_mailbox.go"}, Shards: [2]int{8, 16}, Timeout: [2]time.Duration{5 * min, 40 * min}, CrashKey: "crash", HangKind: "hang", SkipKinds: []string{"prio-", "order-"}},
+				{Check: "histories", Pkg: "internal/actor", Shards: [2]int{8, 16}, Timeout: [2]time.Duration{6 * min, 40 * min}, OnlyKinds: []string{"c01-"}},
 				{Check: "mailboxstress", Pkg: "internal/mailbox", Race: true, Instr: []string{"internal/mailbox/unbounded_mailbox.go"}, Shards: [2]int{4, 16}, Timeout: [2]time.Duration{8 * min, 40 * min}, CrashKey: "crash", HangKind: "hang", SkipKinds: []string{"prio-", "order-"}},
 			},
 		},
